@@ -138,9 +138,10 @@ func (cm cronMask) IsRunAt(t time.Time) bool {
 		if wd != twd {
 			return false
 		}
-		tm := t.Month()
-		m := t.Add(time.Hour * 7 * 24).Month()
-		if tm != m {
+		// civil calendar: the same weekday a week later falls into the next month.
+		// (adding 168h is wrong across a daylight saving change)
+		last := time.Date(t.Year(), t.Month()+1, 0, 0, 0, 0, 0, time.UTC).Day()
+		if t.Day()+7 > last {
 			return true
 		}
 
